@@ -55,7 +55,7 @@ def main(tier):
             if not res["ante"].get(k):
                 raise tla.MachineryError(f"judge antecedent {k} never true")
         # the state x action tables of the core scenarios contribute the per-call clauses (peer / class default untouched)
-        r2 = _sc.R.collect(rep, ["list_int", "set_str", "nested", "list_spec", "dflt_kinds", "dflt_kinds2", "inherit_spec", "inherit_plain", "inherit_plain_mut", "inherit_dnc", "spec_plain_spec"], tier, max_pairs=6000 if not thorough else None, seed=common.seed())
+        r2 = _sc.R.collect(rep, ["list_int", "set_str", "nested", "list_spec", "dflt_kinds", "dflt_kinds2", "inherit_spec", "inherit_plain", "inherit_plain_mut", "inherit_dnc", "spec_plain_spec", "dnc_plain_redefault"], tier, max_pairs=6000 if not thorough else None, seed=common.seed())
         _sc.R.report_clauses(rep, r2, ["c08_"])
         rep.add_events(r2["n"], r2["distinct"], [])
         rep.assumptions += ["in-place mutation of nested values ('pokes') uses direct container operations and in-place helpers at depth",
